@@ -283,7 +283,7 @@ fn scn_configs(o: &Opts, tr: &mut Tr, prop: &str) {
         // configurations reached through the setters (set_compression_level[_raw], set_format_and_level)
         // from a compressor created without match finding: must be the configuration of that level
         let mut k = 0usize;
-        for api in ["set0", "setH", "setN", "set9", "setR", "setI", "newI"] {
+        for api in ["set0", "setH", "setN", "set9", "setR", "setI", "newI", "setZ", "setZR"] {
             for lvl in [1u8, 2, 6, 9, 10] {
                 for zl in [true, false] {
                     if api.ends_with('I') && !zl { continue; }
@@ -357,6 +357,7 @@ fn main() {
         "deflate_protocol_c12" => scn_deflate_protocol(&o, &mut tr, "C12"),
         "capi" => capi::scn_capi(&o, &mut tr, "C17"),
         "capi_c06" => capi::scn_capi(&o, &mut tr, "C06"),
+        "capi_c16" => capi::scn_capi(&o, &mut tr, "C16"),
         "bound" => capi::scn_bound(&o, &mut tr, "C15"),
         "reset" => reset::scn_reset(&o, &mut tr, "C18"),
         "snapshots" => reset::scn_snapshots(&o, &mut tr, "C19"),
@@ -494,6 +495,20 @@ fn scn_adler_stream(o: &Opts, tr: &mut Tr, prop: &str) {
         let sch = Sched { chunk_pat: ["all", "fixed50000", "rand"][i % 3].into(), outs: [vec![1000], vec![128, 4096], vec![30000]][i % 3].clone(),
                           flush_pct: [0, 5][i % 2], flush_set: vec![2, 3], callback: false, max_points: 0 };
         stream_comp_case(tr, &format!("adl-{}-{}-{}", i, kind, size), prop, &data, &cfg, &sch, &mut r, kind);
+    }
+    // the running checksum of compressors whose format / level were set through the setters
+    let mut k = 0usize;
+    for api in ["set0", "setH", "setN", "set9", "setR", "setI", "newI", "setZ", "setZR"] {
+        for lvl in [0u8, 1, 6, 9] {
+            k += 1;
+            if !o.thorough && (k + o.seed as usize) % 2 == 0 { continue; }
+            if lvl == 0 && !(api == "setZ" || api == "setZR" || api == "setI" || api == "newI") { continue; }
+            let data = gen::data(["text", "rand", "mixed"][k % 3], 2500 + k * 37, &mut r);
+            let cfg = Cfg { zlib: true, level: lvl, strat: 0, wbits: 15, api };
+            let sch = Sched { chunk_pat: ["all", "fixed700", "rand"][k % 3].into(), outs: vec![1 << 16], flush_pct: [0, 20][k % 2],
+                              flush_set: vec![2], callback: false, max_points: 0 };
+            stream_comp_case(tr, &format!("adlset-{}-l{}", api, lvl), prop, &data, &cfg, &sch, &mut r, "mixed");
+        }
     }
 }
 
